@@ -208,8 +208,7 @@ def main(tier):
     n_cases += long_cases
     chk.extra["long_prefix"] = {"cases": long_cases, "length": ln}
     chk.add_corr("pull/status", n_cases, dis_all, note=f"values + final status of the first {n} next() calls; {G.EVENTS} line events per next (x10 on a starved/yield mismatch), model fuel {G.FUEL}")
-    for d in dis_all[:20]:
-        chk.add_failure(d["input"], {"what": "model and implementation disagree: " + str(d.get("what")), **{k: v for k, v in d.items() if k not in ("input", "what")}}, None)
+    # (disagreements are a broken correspondence, reported by finish(); starvation / errors where the model yields are failures, above)
     chk.extra.update(cases=n_cases, prefix_length=n, status_counts=status_count, specs_bounded_class=n_bounded, specs_rejection_class=n_reject,
                      max_line_events_per_next_by_bound_magnitude=work, events_budget=G.EVENTS, fuel=G.FUEL, seeds_per_spec=len(seeds))
     chk.rule = (
@@ -232,8 +231,10 @@ def replay(path):
     d = json.load(open(path))
     print(json.dumps(d, indent=1)[:3000])
     inp = d.get("input") or {}
-    if "spec" not in inp or "tape_rle" not in inp:
-        return 1
+    if d.get("kind") != "failing-input" or "spec" not in inp or "tape_rle" not in inp:
+        from ..core import replay_by_rerun
+
+        return replay_by_rerun(main, path)
     spec = eval(inp["spec"], {"datetime": G._dt, "UUID": G.uuid.UUID})  # noqa: S307  reprs of plain tuples written by this harness
     p = G.build(spec)
     items, st, _, worst = G.pull_impl(inp["mode"], p, inp.get("n", 12), G.EVENTS * 10, raws=G.unrle(inp["tape_rle"]))
